@@ -92,6 +92,13 @@ func (e *Env) pureQueries(rule string) {
 			if unexported && w.Root.Kind == facts.RParam && !(fn.Signature.Recv() != nil && w.Root.Param == 0) {
 				continue
 			}
+			// likewise an unexported method filling in its receiver (a constructor's helper): every caller is in the
+			// package and carries the write on its own argument - unless the method escapes as a value
+			if unexported && w.Root.Kind == facts.RParam {
+				if ci := e.callersOf(fn); ci != nil && !ci.AsValue && len(ci.Callers) > 0 {
+					continue
+				}
+			}
 			// tolerated: consuming the caller's io.Reader in ExportWith / getTempleteString
 			if strings.HasPrefix(w.Kind, "extern:io.Copy") || strings.HasPrefix(w.Kind, "extern:io.ReadAll") {
 				if w.Root.Kind == facts.RParam && e.paramIsReader(fn, w.Root.Param) {
@@ -835,6 +842,32 @@ func (e *Env) orderIndependentLoops(fn *ssa.Function) (bool, string) {
 					}
 					if bal, ok := base.(*ssa.Alloc); ok && inLoop[bal.Block()] {
 						continue // a temporary of this iteration (loop variable, argument array of append)
+					}
+					// out[k] = v into a slice or array the function allocated itself, at the entry's own key: every
+					// entry writes its own cell
+					if ia, ok := x.Addr.(*ssa.IndexAddr); ok && key != nil {
+						ix := ia.Index
+						for {
+							if ct, ok := ix.(*ssa.ChangeType); ok {
+								ix = ct.X
+							} else if cv, ok := ix.(*ssa.Convert); ok {
+								ix = cv.X
+							} else {
+								break
+							}
+						}
+						if ix == key {
+							rs := ef.Roots(ia.X)
+							local := len(rs) > 0
+							for _, r := range rs {
+								if r.Kind != facts.RLocal {
+									local = false
+								}
+							}
+							if local {
+								continue
+							}
+						}
 					}
 					switch {
 					case isAlloc && inLoop[al.Block()]:
